@@ -23,6 +23,7 @@ func init() {
 		},
 		Run: runC27,
 		Controls: []Control{
+			{Name: "lookups-normalise-the-peer-address-the-store-does-not", File: "protocols/bgp/server/bmp_neighbor_manager.go", Old: "func (nm *neighborManager) getNeighbor(vrfID uint64, addr [16]byte) *neighbor {\n\tnm.neighborsMu.Lock()\n\tdefer nm.neighborsMu.Unlock()\n", New: "func canonicalPeerAddr(a [16]byte) [16]byte {\n\tif a[10] == 0xff && a[11] == 0xff {\n\t\ta[10], a[11] = 0, 0\n\t}\n\treturn a\n}\n\nfunc (nm *neighborManager) getNeighbor(vrfID uint64, addr [16]byte) *neighbor {\n\tnm.neighborsMu.Lock()\n\tdefer nm.neighborsMu.Unlock()\n\taddr = canonicalPeerAddr(addr)\n", Expect: "lookup-key-agrees-with-stored-key"},
 			{Name: "log-line-grown-by-concatenation", File: "protocols/bgp/server/bmp_router.go", Old: "\t\t\tfmt.Fprintf(logMsg, \" sysDescr.: %s\", string(tlv.Information))\n", New: "\t\t\tr.name += fmt.Sprintf(\" sysDescr.: %s\", string(tlv.Information))\n", Expect: "linear-accumulation"},
 			{Name: "receive-buffer-reserved-from-length-field", File: "protocols/bgp/server/bmp_receiver.go", Old: "\tbuffer.Write(header)\n\t_, err = io.CopyN(buffer, c, int64(l)-bmppkt.MinLen)", New: "\tbuffer.Write(header)\n\tbuffer.Grow(int(l) - bmppkt.MinLen)\n\t_, err = io.CopyN(buffer, c, int64(l)-bmppkt.MinLen)", Expect: "bounded-allocation"},
 			{Name: "sent-open-addpath-for-foreign-family", File: "protocols/bgp/server/bmp_router.go", Old: "\t\t\t\t\tif peerFamily == nil {\n\t\t\t\t\t\tcontinue\n\t\t\t\t\t}\n", New: "", Expect: "family-lookup-result-guarded"},
@@ -49,6 +50,7 @@ func bmpScope(f *core.Fn) bool {
 }
 
 func runC27(c *core.Ctx) {
+	lookupKeyAgreesWithStoredKey(c)
 	nilableFamilyGuarded(c, "family-lookup-result-guarded", 1)
 	var roots []*core.Fn
 	for _, k := range []string{srv + ".recvBMPMsg", "protocols/bmp/packet.Decode", srv + ".(*Router).processMsg"} {
